@@ -4,6 +4,24 @@ from collections import OrderedDict
 import numpy as np
 
 
+def _inherit_typecode(new, obj):
+    """
+    typecode function for an array derived from obj: the one of obj while it
+    still describes the data (a comparison, a promotion or astype give an
+    array of another type)
+    """
+    dt = new.dtype.char
+    own = 'c' if dt == 'S' else dt
+    typecode = getattr(obj, 'typecode', None)
+    try:
+        code = typecode()
+        if np.dtype('S1' if code == 'c' else code) == new.dtype:
+            return typecode
+    except Exception:
+        pass
+    return lambda: own
+
+
 class PseudoNetCDFVariable(np.ndarray):
     """
     PseudoNetCDFVariable presents the Scientific.IO.NetCDF.NetCDFVariable
@@ -243,8 +261,7 @@ class PseudoNetCDFVariable(np.ndarray):
         object.__setattr__(self, '_parent', _parent)
         _name = getattr(obj, '_name', 'unknown')
         object.__setattr__(self, '_name', _name)
-        ntypecode = getattr(obj, 'typecode', lambda: self.dtype.char)
-        object.__setattr__(self, 'typecode', ntypecode)
+        object.__setattr__(self, 'typecode', _inherit_typecode(self, obj))
         ndimensions = getattr(obj, 'dimensions', lambda: self.dtype.char)
         object.__setattr__(self, 'dimensions', ndimensions)
         nncattrs = getattr(obj, '_ncattrs', getattr(self, '_ncattrs', ()))
@@ -347,9 +364,7 @@ class PseudoNetCDFMaskedVariable(PseudoNetCDFVariable, np.ma.MaskedArray):
         np.ma.MaskedArray.__array_finalize__(self, obj)
 
     def _update_from(self, obj):
-        dt = self.dtype.char
-        self.typecode = getattr(
-            obj, 'typecode', lambda: ('c' if dt == 'S' else dt))
+        self.typecode = _inherit_typecode(self, obj)
         self.dimensions = getattr(
             obj, 'dimensions', getattr(self, 'dimensions', ()))
         self._ncattrs = getattr(obj, '_ncattrs', getattr(self, '_ncattrs', ()))
